@@ -177,6 +177,8 @@ pub struct ApiRes {
     pub before_step: usize,
     pub outcome: ApiOutcome,
     pub at_yield: Option<(u32, String)>,
+    /// the call itself when it came from the yield plan (op == usize::MAX)
+    pub yield_op: Option<crate::scenario::Op>,
 }
 
 #[derive(Clone, Debug, Serialize)]
